@@ -9,6 +9,7 @@ mod verify;
 mod exec;
 mod text;
 mod helpers;
+mod api;
 
 use std::io::{BufRead, Write};
 
@@ -28,6 +29,7 @@ fn run_line(line: &str) -> String {
         "disdbg" => { let p = rng::unhex(toks[1]).unwrap(); catch(move || rbpf::disassembler::to_insn_vec(&p).iter().enumerate().map(|(i, x)| format!("{}: {}", i, x.desc)).collect::<Vec<_>>().join("\n")) }
         "asm" | "dis" | "rt" => text::run(&toks),
         "helper" if toks.len() >= 2 => helpers::run(&toks),
+        "api" => api::run(&toks),
         "exec" => exec::run(&toks),
         _ => "bad-op".into(),
     }
@@ -61,6 +63,7 @@ fn main() {
                 "exec-accepted" => exec::gen_accepted(&mut w, thorough, seed),
                 "exec-engines" => exec::gen_engines(&mut w, thorough, seed),
                 "exec-accepted-engines" => exec::gen_accepted_engines(&mut w, thorough, seed),
+                "api" => api::gen(&mut w, thorough, seed),
                 "exec-long" => exec::gen_long(&mut w, thorough, seed),
                 _ => { eprintln!("unknown suite {suite}"); std::process::exit(2); }
             }
@@ -74,6 +77,7 @@ fn main() {
                 let line = line.unwrap();
                 let r = run_line(&line);
                 writeln!(w, "{}", r).unwrap();
+                w.flush().unwrap();   // a case that kills the process must not lose the transcript of the cases before it
             }
             w.flush().unwrap();
         }
